@@ -670,9 +670,18 @@ fn cmd_ranges(a: &Args) {
 
 fn cmd_hist(a: &Args) {
     let (elems, _) = build_universe(a);
-    let docs: Vec<(String, String)> = elems.into_iter().take(a.num("docs", 24) as usize).map(|e| (e.id, e.text)).collect();
+    let mut docs: Vec<(String, String)> = elems.into_iter().take(a.num("docs", 24) as usize).map(|e| (e.id, e.text)).collect();
+    if a.get("big", "true") == "true" {
+        let fixroot = PathBuf::from(a.get("fixtures", "/repo/tests/fixtures"));
+        let mut big: Vec<Elem> = universe::fixtures(&fixroot, 1 << 30).into_iter().filter(|e| e.text.len() > 30_000).collect();
+        big.sort_by_key(|e| std::cmp::Reverse(e.text.len()));
+        // interleave: small, BIG, small ... so that documents are formatted before and after a big one
+        for (i, e) in big.into_iter().take(3).enumerate() {
+            let pos = (3 + 5 * i).min(docs.len());
+            docs.insert(pos, (e.id, e.text));
+        }
+    }
     let cfgs = parse_cfgs(&a.get("cfgs", "80:2:2:0,20:4:2:0,0:2:2:1"));
-    let mut docs = docs;
     // document pairs with identical span numbering and different attributes
     let pairs: [(&str, &str); 4] = [
         ("#f(a,  b)\n/* @typstyle off */\n#g(a,  b)\n", "#f(a,  b)\n/* @typstyle on  */\n#g(a,  b)\n"),
@@ -698,12 +707,14 @@ fn cmd_hist(a: &Args) {
             let nthreads = sched.iter().max().map(|m| m + 1).unwrap_or(0);
             let pi = k % pairs.len();
             let ci = k % cfgs.len();
-            let calls: Vec<(String, Cfg)> = (0..nthreads).map(|t| (docs[base + 2 * pi + (t % 2)].1.clone(), cfgs[ci])).collect();
+            // concurrent calls differ in document AND configuration
+            let calls: Vec<(String, Cfg)> =
+                (0..nthreads).map(|t| (docs[base + 2 * pi + (t % 2)].1.clone(), cfgs[(ci + t) % cfgs.len()])).collect();
             let res = extra::replay_schedule(&calls, &sched);
             for (t, r) in res.iter().enumerate() {
                 seq += 1;
                 writeln!(w, "{}", json!({"ev": "hist", "mode": "sched", "thread": t + 1, "seq": seq, "doc": base + 2 * pi + (t % 2),
-                                         "cfgid": ci, "id": docs[base + 2 * pi + (t % 2)].0, "round": k, "res": r})).unwrap();
+                                         "cfgid": (ci + t) % cfgs.len(), "id": docs[base + 2 * pi + (t % 2)].0, "round": k, "res": r})).unwrap();
             }
             n_sched += 1;
         }
